@@ -87,4 +87,11 @@ Definition stmt_post_spec : Prop :=
     ((is_errored s = true \/ s = MaxIterations \/ s = MaxTime) /\
      exists a, almost = Some a /\ post s almost = almost_status a).
 
+(** C07: every step that is actually taken (an [EAddStep] event of any run) was accepted by
+    the small-step checkpoint: it is not at or below the termination threshold, and under
+    primal-dual scaling of nonsymmetric cones it is not below the switching threshold. *)
+Definition stmt_accepted_steps : Prop :=
+  forall (e : env) (pd : bool) (pins : list pin) (almost : option almostv) (a : A),
+    In (EAddStep A a) (snd (run e pd pins almost)) -> a_le_term a = false.
+
 End Stmts.
